@@ -120,3 +120,61 @@ def faulted(env, digital_rf, cc, ops, name, fail_at, err, sticky, opclass=None):
     sc["exit_code"] = run.exit_code
     run.cleanup()
     return sc
+
+
+def free_running(env, digital_rf, rng, seed, name, nreaders=2, nwrites=60):
+    """writer and reader processes at full speed, no synchronisation; returns a DrfLiveTrace scenario"""
+    import json
+    import shutil
+    import subprocess
+    import time
+
+    from ..fsshim import fsctl
+
+    cc, _ = make_job(rng, seed, nfiles=(6, 10), mode=rng.choice(["gapped", "contC", "contU"]))
+    root = env["root"] + "_live"
+    shutil.rmtree(root, ignore_errors=True)
+    top = os.path.join(root, "top")
+    os.makedirs(os.path.join(top, "ch"))
+    b = cc.bound
+    # many small writes that walk through all windows, with occasional gaps
+    writes, pos, hi = [], 0, b[-1] - b[0] - 1
+    while pos <= hi and len(writes) < nwrites:
+        n = rng.choice([1, 2, 3, max(1, (b[1] - b[0]) // 2), (b[1] - b[0]) + 1])
+        n = min(n, hi - pos + 1, 5000)
+        writes.append([pos, n])
+        pos += n + rng.choice([0, 0, 0, 1, 2])
+    job = dict(cfg=dict(n=cc.n, d=cc.d, fc=cc.fc, sc=cc.sc, dtype=cc.dtype.str, is_complex=cc.is_complex, nsub=cc.nsub, mode=cc.mode,
+                        compression=cc.compression, checksum=cc.checksum, seed=cc.vals.seed, B=cc.B),
+               top=top, root=root, start=b[0] + cc.B, writes=writes, pause=rng.choice([0.0, 0.001, 0.003]), rpause=0.0,
+               verif=env["verif"], out=os.path.join(root, "reader%d.ndjson"), lo=b[0] + cc.B - 2, hi=b[-1] + cc.B + 2)
+    jf = os.path.join(root, "job.json")
+    json.dump(job, open(jf, "w"))
+    here = os.path.join(env["verif"], "harness", "fsshim", "live_proc.py")
+    penv = dict(os.environ, PYTHONPATH=env["stage"], HDF5_USE_FILE_LOCKING="FALSE", PYTHONDONTWRITEBYTECODE="1")
+    readers = [subprocess.Popen(["/venv/bin/python", here, "reader%d" % (r + 1), jf], env=penv, stdout=subprocess.DEVNULL, stderr=subprocess.DEVNULL)
+               for r in range(nreaders)]
+    time.sleep(0.4)  # let the readers start polling the still empty tree
+    wr = subprocess.Popen(["/venv/bin/python", here, "writer", jf], env=penv, stdout=subprocess.DEVNULL, stderr=subprocess.DEVNULL)
+    wr.wait(timeout=120)
+    open(os.path.join(root, "writer_done"), "w").close()
+    for p in readers:
+        p.wait(timeout=60)
+    # final content of every file (raw h5py), in name order
+    run = fsctl.FsRun(env["stage"], env["shim"], env["verif"], root, cc, [])
+    snap = run.snapshot("end")
+    files = [dict(j=f["j"], vis=cd.merge_runs(f["data"] + f["fill"]), data=f["data"], ok=f["ok"]) for f in snap["files"]]
+    events = []
+    for r in range(nreaders):
+        evs = [json.loads(l) for l in open(os.path.join(root, "reader%d.ndjson" % (r + 1)))]
+        # drop consecutive identical passes (keep the first of each run and every after-close pass)
+        last = None
+        for e in evs:
+            key = (e["ok"], json.dumps(e["blocks"]), e["afterclose"], e["bad"])
+            if key != last:
+                events.append(e)
+                last = key
+    sc = dict(name=name, desc=cc.describe(), files=files, nreaders=nreaders, events=events, writer_rc=wr.returncode,
+              passes=sum(1 for _ in events))
+    shutil.rmtree(root, ignore_errors=True)
+    return sc
